@@ -256,20 +256,23 @@ func TestVerifC17(t *testing.T) {
 	}
 	// transfer extension items area + data length vs. available bytes (lengths kept small on purpose:
 	// huge announced lengths are C04's subject)
-	segHead := []byte{XFER_SEGMENT, 3, 0, 0, 0, 0, 0, 0, 0, 9}
-	for _, el := range []int{0, 1, 4, 300} {
-		for _, dl := range []int{0, 1, 5} {
-			for _, have := range []int{0, el, el + 7, el + 8, el + 8 + dl - 1, el + 8 + dl, el + 8 + dl + 2} {
-				if have < 0 {
-					continue
+	// — for every combination of the START and END flags: the items are skipped whatever the segment's position)
+	for _, segFl := range []byte{3, 0, 1, 2} {
+		segHead := []byte{XFER_SEGMENT, segFl, 0, 0, 0, 0, 0, 0, 0, 9}
+		for _, el := range []int{0, 1, 4, 300} {
+			for _, dl := range []int{0, 1, 5} {
+				for _, have := range []int{0, el, el + 7, el + 8, el + 8 + dl - 1, el + 8 + dl, el + 8 + dl + 2} {
+					if have < 0 {
+						continue
+					}
+					b := append(append([]byte{}, segHead...), byte(el>>24), byte(el>>16), byte(el>>8), byte(el))
+					tail := append(r.bytes(el), 0, 0, 0, 0, 0, 0, 0, byte(dl))
+					tail = append(tail, r.bytes(dl+2)...)
+					if have < len(tail) {
+						tail = tail[:have]
+					}
+					emitDec(append(b, tail...))
 				}
-				b := append(append([]byte{}, segHead...), byte(el>>24), byte(el>>16), byte(el>>8), byte(el))
-				tail := append(r.bytes(el), 0, 0, 0, 0, 0, 0, 0, byte(dl))
-				tail = append(tail, r.bytes(dl+2)...)
-				if have < len(tail) {
-					tail = tail[:have]
-				}
-				emitDec(append(b, tail...))
 			}
 		}
 	}
